@@ -120,7 +120,9 @@ def parseKind (k : String) : Option Cfg :=
   else if k == "e" then some expressionCfg
   else if k == "m" then some mustacheCfg
   else match k.splitOn ":" with
-    | ["c", seps, quotes] =>
+    | [h, seps, quotes] =>
+      -- "c" / "C" / "D": the same configuration reached through different histories of setter calls
+      if h != "c" && h != "C" && h != "D" then none else
       let ss := parseRunes seps; let qs := parseRunes quotes
       if csvValid ss qs then some (csvCfg ss qs) else none
     | _ => none
